@@ -30,6 +30,22 @@ class Registry:
                 self.made[key] = make_const(name=recipe[1], formatter=dict(recipe[2]))
             elif kind == "group":
                 self.made[key] = make_group({nm: _classes()[k] for nm, k in recipe[1]})
+            elif kind == "subclass":
+                # a subclass with its own configuration has its own patterns: it must not see its parent's
+                import fmtutil
+                if recipe[1] == "serial5":
+                    class Serial5(fmtutil.Serial):
+                        class Config(fmtutil.Serial.Config):
+                            serial_max_padding = 5
+                    self.made[key] = Serial5
+                elif recipe[1] == "serial2":
+                    class Serial2(fmtutil.Serial):
+                        class Config(fmtutil.Serial.Config):
+                            serial_max_padding = 2
+                            serial_max_binary = 4
+                    self.made[key] = Serial2
+                else:
+                    raise KeyError(recipe[1])
             else:
                 raise KeyError(kind)
         return self.made[key]
